@@ -337,7 +337,8 @@ func TestC06UnknownObjectType(t *testing.T) {
 		if rapid.Bool().Draw(rt, "anyot") {
 			ot = rapid.Uint32().Draw(rt, "objtype")
 		}
-		if _, reg := pins.Objects[ot]; reg {
+		if _, reg := pins.Objects[ot]; reg || ot>>24 == 0x8C {
+			// 0x8Cxxxxxx is reserved for the run-time registration test of this package
 			ot = 0x80000001
 		}
 		to := gen.DefaultTreeOpts()
